@@ -25,7 +25,16 @@ func (s genericSortable) Swap(i, j int) {
 
 // Less is part of sort.Interface.
 func (s genericSortable) Less(i, j int) bool {
-	return Less(s[i], s[j])
+	// nil has a place of its own - first, as in a sort by key - because values.Less answers
+	// false for any comparison with nil, which is no order to sort by
+	a, b := ToLiquid(s[i]), ToLiquid(s[j])
+	switch {
+	case a == nil:
+		return b != nil
+	case b == nil:
+		return false
+	}
+	return Less(a, b)
 }
 
 // SortByProperty sorts maps on their key indices.
